@@ -9,11 +9,15 @@ produced here by the functions the theorems quantify over: `Spec.rotl`, `recase`
   circ name site skip oh dir seq rots       : circular part, rotations `rots` = "all" | "k1,k2,…"
   lin  name site skip oh dir seq            : linear part
   case name site skip oh dir circ seq mask  : seq vs recase mask seq
+  hist name site skip oh seq                : the SAME stored string through a fixed history of calls
+                                              (circular/linear, directional or not) in one process
 `name` = a built-in enzyme (geometry taken from the REBASE-pinned spec table, the request then
 also goes through CutWithEnzymeByName) or "" for a custom enzyme given by site/skip/oh
 (any other name: custom enzyme + a ByName call that must be refused).
-Request:  cut name site rcsite skip oh dir circ seq…
-Reply:    ok (direct byname)…   one pair of fields per sequence, each `ok|fwd,seq,rev;…` | panic | err | -
+Request:  cut name site rcsite skip oh dir circ seq…   |   cuthist name site rcsite skip oh seq
+Reply:    ok (direct byname)…   one pair of fields per sequence / call, each `ok|fwd,seq,rev;…` | panic | err | -
+Correspondence compares each fragment list as a MULTISET (the property's observation); a reply that has
+the model's fragments in another order is tagged `order-differs` in the class, not counted as a disagreement.
 -/
 
 def b (s : String) : Bool := s == "true"
@@ -56,14 +60,21 @@ structure Case where
   circ : Bool
   seqs : List Str
 
-def rotsOf (seq : Str) (rots : String) : List Nat :=
-  if rots == "all" then List.range seq.length
-  else if rots == "" then [0] else (rots.splitOn ",").map natOfStr
+def rotsOf (seq : Str) (rots : String) : Option (List Nat) :=
+  if rots == "all" then some (List.range seq.length)
+  else (rots.splitOn ",").mapM fun t => if t.isEmpty then none else t.toNat?
+
+/-- the fixed call history of a `hist` case: (circular, directional) -/
+def history : List (Bool × Bool) :=
+  [(true, true), (false, true), (true, true), (false, false), (false, true), (true, false), (true, true)]
 
 def parse (f : List String) : Option Case :=
   match f with
   | ["circ", name, site, skip, oh, dir, seq, rots] =>
-    some ⟨"circ", name, geometryOf name site skip oh, b dir, true, (rotsOf seq.toList rots).map fun k => Spec.rotl k seq.toList⟩
+    (rotsOf seq.toList rots).map fun ks =>
+      ⟨"circ", name, geometryOf name site skip oh, b dir, true, ks.map fun k => Spec.rotl k seq.toList⟩
+  | ["hist", name, site, skip, oh, seq] =>
+    some ⟨"hist", name, geometryOf name site skip oh, true, true, [seq.toList]⟩
   | ["lin", name, site, skip, oh, dir, seq] =>
     some ⟨"lin", name, geometryOf name site skip oh, b dir, false, [seq.toList]⟩
   | ["case", name, site, skip, oh, dir, circ, seq, mask] =>
@@ -74,10 +85,18 @@ def render (f : List String) : List String :=
   match parse f with
   | none => ["bad"]
   | some c =>
+    if c.kind == "hist" then
+      ["cuthist", c.name, String.ofList c.g.site, String.ofList (rcSite c.g.site), toString c.g.skip, toString c.g.oh]
+        ++ c.seqs.map String.ofList
+    else
     ["cut", c.name, String.ofList c.g.site, String.ofList (rcSite c.g.site), toString c.g.skip, toString c.g.oh,
      boolStr c.dir, boolStr c.circ] ++ c.seqs.map String.ofList
 
 def modelReply (c : Case) : List String :=
+  if c.kind == "hist" then
+    "ok" :: history.flatMap fun (circ, dir) =>
+      [encOutcome (cutWithEnzyme (c.seqs.headD []) circ dir (enzymeOf c.name c.g)), "-"]
+  else
   "ok" :: c.seqs.flatMap fun s =>
     [encOutcome (cutWithEnzyme s c.circ c.dir (enzymeOf c.name c.g)),
      if c.name == "" then "-" else encOutcome (cutWithEnzymeByName s c.circ c.dir c.name)]
@@ -90,17 +109,29 @@ def pairsOf : List String → List (String × String)
 /-- `x` occurs as a contiguous substring of `u` -/
 def isInfix (x u : Str) : Bool := (List.range (u.length + 1)).any fun i => x.isPrefixOf (u.drop i)
 
+/-- two reply fields agree: identical, or fragment lists that are equal as multisets -/
+def sameField (a b : String) : Bool :=
+  a == b || (match decFragments a, decFragments b with
+    | some x, some y => x.isPerm y
+    | _, _ => false)
+
+def sameReply : List String → List String → Bool
+  | [], [] => true
+  | a :: as, b :: bs => sameField a b && sameReply as bs
+  | _, _ => false
+
 def judge (f out : List String) : Verdict :=
   match parse f with
   | none => { corr := false, judge := none, cls := "bad-case" }
   | some c =>
     let m := modelReply c
-    let corr := out == m
+    let corr := sameReply out m
+    let orderDiffers := corr && out != m
     let s0 := c.seqs.headD []
     let u0 := s0.map Char.toUpper
     let isBuiltin := (builtin.lookup c.name).isSome
     let pairs := match out with | "ok" :: r => pairsOf r | _ => []
-    let shapeOk := pairs.length == c.seqs.length
+    let shapeOk := pairs.length == (if c.kind == "hist" then history.length else c.seqs.length)
     -- the spec is evaluated through the array-backed reading function (`letterA_eq`: equal to `letter u0`)
     let arr := u0.toArray
     let w := letterA arr
@@ -108,22 +139,32 @@ def judge (f out : List String) : Verdict :=
     let nsites := if c.circ then (sites w n c.g.site).length + (sites w n (rcSite c.g.site)).length
                   else (linSites w n c.g.site).length + (linSites w n (rcSite c.g.site)).length
     let expected := if c.circ then digestW c.g w n else digestLinW c.g w n
-    let inDom := c.dir && (if c.circ then wfLayoutW c.g w n else wfLinearW c.g w n) && (c.name == "" || isBuiltin)
+    let expectedLin := digestLinW c.g w n
+    let inDom := c.dir && (c.name == "" || isBuiltin) &&
+      (if c.kind == "hist" then wfLayoutW c.g w n && wfLinearW c.g w n
+       else if c.circ then wfLayoutW c.g w n else wfLinearW c.g w n)
     let decoded := pairs.map fun (d, _) => decFragments d
     -- ByName must agree with the direct call for a built-in enzyme
-    let byNameOk := pairs.all fun (d, n) => if isBuiltin then d == n else true
+    let byNameOk := pairs.all fun (d, n) => if isBuiltin && c.kind != "hist" then sameField d n else true
     let j : Bool :=
       shapeOk && byNameOk &&
       (match c.kind with
        | "case" =>
          -- letter case is irrelevant: identical answers, and the geometry clause on both
          (match decoded with
-          | [some a, some b'] => a == b' && a.isPerm expected
+          | [some a, some b'] => a.isPerm b' && a.isPerm expected
           | _ => false)
        | "lin" =>
          (match decoded with
           | [some a] => a.isPerm expected && a.all fun (x, y, z) => isInfix (x ++ y ++ z) u0
           | _ => false)
+       | "hist" =>
+         -- every directional call of the history returns the spec's multiset for its topology
+         decoded.length == history.length &&
+         (decoded.zip history).all fun (d, (circ, dir)) =>
+           !dir || (match d with
+             | some a => a.isPerm (if circ then expected else expectedLin)
+             | none => false)
        | _ =>
          -- every rotation yields the spec's multiset for the cyclic word (hence the same one)
          decoded.all fun d => match d with
@@ -133,6 +174,7 @@ def judge (f out : List String) : Verdict :=
     let cls := (if nsites == 0 then "triv:" else "") ++ c.kind ++ (if c.kind == "case" then (if c.circ then "C" else "L") else "")
                 ++ "/" ++ enz ++ (if c.dir then "" else "/nondir")
                 ++ "/s" ++ toString nsites ++ "f" ++ toString expected.length
+                ++ (if c.g.oh == 0 then "/blunt" else "") ++ (if orderDiffers then " order-differs" else "")
     { corr := corr, judge := if inDom then some j else none, cls := cls,
       detail := if corr && (j || !inDom) then "" else
         "model: " ++ lineOf m ++ " | spec: " ++ encFragments expected }
